@@ -1,8 +1,12 @@
 #!/usr/bin/env python3
-"""Summarise notes/coverage/func-*.txt: for every property, the functions of its anchored files and how much of
-them the property's own correspondence run reaches (and all runs together)."""
+"""Summarise notes/coverage/func-*.txt.
+
+Part 1: per property, how much of its ANCHORED files its own correspondence run reaches.
+Part 2: the blind spots of the whole machinery: functions of /repo that all 20 runs together cover < 70 %
+        (documentation strings, String() renderers and the interactive console excluded)."""
 import json, re, os
 V = os.path.dirname(os.path.dirname(os.path.abspath(__file__)))
+NOISE = re.compile(r"(DocString|\.String|^String|stringIndent|UnitTest|Inst$|PosString)$")
 def load(path):
     d = {}
     if not os.path.exists(path): return d
@@ -11,19 +15,34 @@ def load(path):
         if m: d[(m.group(1), m.group(3))] = float(m.group(4))
     return d
 allc = load(os.path.join(V, "notes/coverage/func-all.txt"))
+tot = [l for l in open(os.path.join(V, "notes/coverage/func-all.txt")) if l.startswith("total")]
 print("# Statement coverage of /repo reached by the correspondence runs (quick tier)\n")
-print("Measured with `tools/coverage.sh` (harness built with `go build -cover -coverpkg=github.com/krotik/ecal/...`).")
-print("Per property: functions of the ANCHORED files that the property's own run covers < 60 %, with the coverage all 20 runs reach together in brackets.\n")
+print("Measured with `tools/coverage.sh` (harness built with `go build -cover -coverpkg=github.com/krotik/ecal/...,verifharness/...`;")
+print("the counters of all harness processes of a check are merged). Coverage is NOT what decides a property — it shows")
+print("which code of the anchored files no generated case can reach, i.e. where a breaking change would be invisible to the")
+print("correspondence (the theorems do not depend on it).\n")
+if tot: print("All 20 runs together (ecal + harness statements): " + tot[0].split()[-1] + "\n")
+print("## Per property: anchored files, own run\n")
+print("| property | functions in anchored files | mean function coverage, own run | functions with 0 % in own run but ≥ 60 % in all runs (covered by another property's run) | functions < 60 % in all runs |")
+print("|---|---|---|---|---|")
+anch = {}
 for l in open(os.path.join(V, "properties.jsonl")):
     p = json.loads(l); pid = p["id"]
     own = load(os.path.join(V, f"notes/coverage/func-{pid}.txt"))
-    files = [f for f in p["anchors"]["files"]]
-    rows = [(k, v) for k, v in own.items() if k[0] in files]
+    files = p["anchors"]["files"]
+    rows = [(k, v) for k, v in own.items() if k[0] in files and not NOISE.search(k[1])]
+    for k, _ in rows: anch.setdefault(k, []).append(pid)
     if not rows:
-        print(f"## {pid}\n(no data)\n"); continue
-    tot = sum(v for _, v in rows) / len(rows)
-    print(f"## {pid} — {len(rows)} functions in anchored files, mean function coverage by its own run {tot:.0f} %\n")
-    low = sorted([(v, k) for k, v in rows if v < 60.0])
-    for v, k in low[:40]:
-        print(f"- {k[0]} `{k[1]}` {v:.0f} % (all runs: {allc.get(k, 0):.0f} %)")
-    print()
+        print(f"| {pid} | (no data) | | | |"); continue
+    mean = sum(v for _, v in rows) / len(rows)
+    other = sum(1 for k, v in rows if v == 0 and allc.get(k, 0) >= 60)
+    low = sum(1 for k, v in rows if allc.get(k, 0) < 60)
+    print(f"| {pid} | {len(rows)} | {mean:.0f} % | {other} | {low} |")
+print("\n## Blind spots: functions of anchored files that all runs together cover < 70 %\n")
+rows = sorted((v, k) for k, v in allc.items() if k in anch and v < 70.0 and not NOISE.search(k[1]))
+for v, k in rows:
+    print(f"- {v:3.0f} %  {k[0]} `{k[1]}`  (anchored by {', '.join(anch[k])})")
+print("\n## Functions outside every anchored file with < 30 % (for information)\n")
+rows = sorted((v, k) for k, v in allc.items() if k not in anch and v < 30.0 and not NOISE.search(k[1]))
+for v, k in rows:
+    print(f"- {v:3.0f} %  {k[0]} `{k[1]}`")
